@@ -380,6 +380,39 @@ func (x *Exec) Apply(st Step) error {
 		}
 		msg := flows.NewMsgIn(flows.MsgUUID(uuids.NewV4()), urns.URN(x.Root.msgURN()), assets.NewChannelReference(assets.ChannelUUID(ChanTel), "Tel"), strings.TrimPrefix(st.Ev, "refresh:"), nil)
 		res = resumes.NewMsg(nil, contact, msg)
+	} else if strings.HasPrefix(st.Ev, "env:") {
+		// "env:<which>:<text>": a msg resume that carries a changed environment
+		//   urns / none  the root's environment with that redaction policy
+		//   alt          other date/time formats, timezone and number format
+		parts := strings.SplitN(st.Ev, ":", 3)
+		ej := J{}
+		base := x.Root.Env
+		if base == nil {
+			base = DefaultEnv()
+		}
+		for k, v := range base {
+			ej[k] = v
+		}
+		switch parts[1] {
+		case "urns", "none":
+			ej["redaction_policy"] = parts[1]
+		case "alt":
+			ej["date_format"] = "DD-MM-YYYY"
+			ej["time_format"] = "tt:mm:ss"
+			ej["timezone"] = "Africa/Kigali"
+			ej["number_format"] = J{"decimal_symbol": ",", "digit_grouping_symbol": "."}
+		}
+		eb, _ := json.Marshal(ej)
+		env, err := envs.ReadEnvironment(eb)
+		if err != nil {
+			return fmt.Errorf("resume environment: %w", err)
+		}
+		text := ""
+		if len(parts) > 2 {
+			text = parts[2]
+		}
+		msg := flows.NewMsgIn(flows.MsgUUID(uuids.NewV4()), urns.URN(x.Root.msgURN()), assets.NewChannelReference(assets.ChannelUUID(ChanTel), "Tel"), text, nil)
+		res = resumes.NewMsg(env, nil, msg)
 	} else if strings.HasPrefix(st.Ev, "msg:") && x.Root.MsgURN != "" {
 		msg := flows.NewMsgIn(flows.MsgUUID(uuids.NewV4()), urns.URN(x.Root.msgURN()), assets.NewChannelReference(assets.ChannelUUID(ChanTel), "Tel"), strings.TrimPrefix(st.Ev, "msg:"), nil)
 		res = resumes.NewMsg(nil, nil, msg)
